@@ -1,6 +1,7 @@
 package main
 
 import (
+	"fmt"
 	"go/types"
 	"math/big"
 	"strings"
@@ -55,7 +56,19 @@ func libEffects(x *ssa.Call) ([]string, bool) {
 	case "(encoding/binary.bigEndian).PutUint16", "(encoding/binary.bigEndian).PutUint32", "(encoding/binary.bigEndian).PutUint64":
 		return []string{"M:uint8"}, true
 	case "sort.Slice", "sort.SliceStable":
+		if mi, ok := x.Call.Args[0].(*ssa.MakeInterface); ok {
+			if sl, ok := mi.X.Type().Underlying().(*types.Slice); ok {
+				return []string{elemHeapPrefix(sl.Elem())}, true
+			}
+		}
 		return nil, false
+	case "encoding/binary.Write":
+		if mi, ok := x.Call.Args[0].(*ssa.MakeInterface); ok && mi.X.Type().String() == "*bytes.Buffer" {
+			return nil, true
+		}
+		return nil, false
+	case "(*bytes.Buffer).Bytes", "(*bytes.Buffer).Len", "(*bytes.Buffer).String":
+		return nil, true
 	}
 	return nil, false
 }
@@ -119,6 +132,51 @@ func (f *FuncVC) libCall(st *State, x *ssa.Call, args []*Val) (*Val, bool) {
 		f.sc.assert(and(cmp("<=", "0", r), cmp("<=", r, "64"), implies(eq(v.T, "0"), eq(r, "0")),
 			implies(cmp(">", v.T, "0"), and(cmp("<=", pm, v.T), cmp("<", v.T, p)))))
 		return &Val{K: KInt, Ty: resTy, T: r, Lo: big.NewInt(0), Hi: big.NewInt(64)}, true
+	}
+	switch name {
+	case "sort.Slice", "sort.SliceStable":
+		// assumed: reorders the elements of the slice in place, nothing else
+		// (the comparison closure is assumed to be free of side effects)
+		if mi, ok := x.Call.Args[0].(*ssa.MakeInterface); ok {
+			if sl, ok := mi.X.Type().Underlying().(*types.Slice); ok {
+				f.usedAssumed[name+": permutes the elements of its argument slice in place; no other effect"] = true
+				sv := f.val(st, mi.X)
+				m := resolvedMod{kind: "elems", heap: elemHeapPrefix(sl.Elem()), obj: sv.Fs[0].T, off: sv.Fs[1].T, ln: sv.Fs[2].T, text: "sorted slice"}
+				names, sorts, _ := elemLeaves(sl.Elem())
+				var before []string
+				for i, hn := range names {
+					before = append(before, sel(f.heap(st, hn, arraySort(2, sorts[i])), sv.Fs[0].T))
+				}
+				f.applyMod(st, m, f.srcAt(x.Pos()))
+				// every element afterwards is one of the elements before (same index map for all leaves)
+				perm := f.sc.fresh("perm")
+				f.sc.declareFun(perm, []string{"Int"}, "Int")
+				for i, hn := range names {
+					after := sel(f.heap(st, hn, arraySort(2, sorts[i])), sv.Fs[0].T)
+					after = f.sc.nameConst("sorted", arraySort(1, sorts[i]), after)
+					q := f.sc.fresh("k")
+					lo, hi := sv.Fs[1].T, arith("+", sv.Fs[1].T, sv.Fs[2].T)
+					f.sc.assert(fmt.Sprintf("(forall ((%s Int)) (! (=> (and (<= %s %s) (< %s %s)) (and (<= %s (%s %s)) (< (%s %s) %s) (= (select %s %s) (select %s (%s %s))))) :pattern ((select %s %s))))",
+						q, lo, q, q, hi, lo, perm, q, perm, q, hi, after, q, before[i], perm, q, after, q))
+				}
+				return &Val{K: KTuple, Ty: resTy}, true
+			}
+		}
+	case "(*bytes.Buffer).Bytes":
+		f.usedAssumed[name+": returns a slice of the buffer contents (contents not modelled)"] = true
+		return f.freshTyped(st, resTy, "bufbytes"), true
+	case "(*bytes.Buffer).Len":
+		f.usedAssumed[name+": pure"] = true
+		r := f.freshTyped(st, resTy, "buflen")
+		f.sc.assert(cmp(">=", r.T, "0"))
+		return r, true
+	case "encoding/binary.Write":
+		// assumed: serialises into the writer argument; when that writer is a
+		// *bytes.Buffer created locally nothing visible to our heaps changes
+		if mi, ok := x.Call.Args[0].(*ssa.MakeInterface); ok && mi.X.Type().String() == "*bytes.Buffer" {
+			f.usedAssumed[name+" into a *bytes.Buffer: no effect on modelled state, result error unconstrained"] = true
+			return f.freshTyped(st, resTy, "binwrite"), true
+		}
 	}
 	if isPureLib(name) {
 		f.usedAssumed[name+": pure (fresh result, no heap effect)"] = true
